@@ -2,6 +2,7 @@
 // one request per line:  <kind> <hex of input bytes>
 //   I  ReadInteger(val, in, &err, ",)")     R  ReadReal     N  ReadNumber
 //   W  WriteReal(strtod(text))   (input = decimal text of the double)
+//   A / Q  an INTEGER / REAL element of an aggregate (IntNode / RealNode): severity of the read, then what STEPwrite(string), STEPwrite(ostream), asStr give
 //   L  SDAI_LOGICAL::ReadEnum   B  SDAI_BOOLEAN::ReadEnum   E  a three-item enumeration (AHEAD, BEHIND, A1)
 //      (needDelims = 1); value printed: the index assigned (asInt) or - when null
 //   T  SDAI_String::STEPread(in, &err): value printed = hex of the stored literal (or -)
@@ -20,6 +21,8 @@
 #include "cldai/sdaiEnum.h"
 #include "cldai/sdaiString.h"
 #include "cldai/sdaiBinary.h"
+#include "clstepcore/STEPaggrInt.h"
+#include "clstepcore/STEPaggrReal.h"
 
 class TestEnum : public SDAI_Enum {
     public:
@@ -151,6 +154,30 @@ int main() {
                 restbuf += c;
             }
             printf( "Y %d %s %d %d %d %d %s\n", v.empty() ? 0 : 1, v.empty() ? "-" : v.c_str(), ( int )err.severity(), ( int )restbuf.size(), eof, fail, w.empty() ? "-" : w.c_str() );
+        } else if( k == 'A' ) {
+            // an INTEGER as an element of an aggregate: IntNode reads the text; both of its writers and asStr print it
+            std::istringstream in( data );
+            ErrorDescriptor err;
+            IntNode node;
+            Severity sev = node.STEPread( in, &err );
+            std::string w1, w2;
+            node.STEPwrite( w1 );
+            std::ostringstream os;
+            node.STEPwrite( os );
+            node.asStr( w2 );
+            printf( "A %d %s %s %s\n", ( int )sev, w1.empty() ? "-" : w1.c_str(), os.str().empty() ? "-" : os.str().c_str(), w2.empty() ? "-" : w2.c_str() );
+        } else if( k == 'Q' ) {
+            // a REAL as an element of an aggregate
+            std::istringstream in( data );
+            ErrorDescriptor err;
+            RealNode node;
+            Severity sev = node.STEPread( in, &err );
+            std::string w1, w2;
+            node.STEPwrite( w1 );
+            std::ostringstream os;
+            node.STEPwrite( os );
+            node.asStr( w2 );
+            printf( "Q %d %s %s %s\n", ( int )sev, w1.empty() ? "-" : w1.c_str(), os.str().empty() ? "-" : os.str().c_str(), w2.empty() ? "-" : w2.c_str() );
         } else if( k == 'W' ) {
             double d = strtod( data.c_str(), 0 );
             char rbuf[64];
